@@ -29,7 +29,7 @@ def reencode(prog, row, token):
     res = []
     for o in outs:
         if o.kind == 'return' and l1.result_kind(o.value) == 'Ok':
-            res.append((o.st, tables.flatten_puts(o.st.events), sorted(f for f in o.st.flags if f.startswith(('imprecise', 'opaque', 'trunc')))))
+            res.append((o.st, tables.recombine(tables.flatten_puts(o.st.events), o.st), sorted(f for f in o.st.flags if f.startswith(('imprecise', 'opaque', 'trunc')))))
     return m, res
 
 
@@ -91,7 +91,7 @@ def converse(ctx, prog, rows, where):
         for o in outs:
             if o.kind != 'return' or l1.result_kind(o.value) != 'Ok':
                 continue
-            stream = tables.flatten_puts(o.st.events)
+            stream = tables.recombine(tables.flatten_puts(o.st.events), o.st)
             if not stream or not isinstance(stream[0], Int):
                 ctx.violation('T-TOKEN.converse', vn + '|head', 'encoding %s writes no recognisable initial byte (%s)' % (vn, tables.fmt_stream(stream)), where)
                 continue
